@@ -69,7 +69,7 @@ CLAIMED["C09"] = dict(
          "RejectKeepsBindings on the complete reachable state graph (all histories of every length for the constants). "
          "Every behaviour up to depth 3 (thorough 4) generated by TLC and long seeded random histories over a larger world are "
          "executed on a real RateLimitedAttester with a recording cache, and TLC validates the recorded events - verdict of "
-         "every call, registered clients, a snapshot of every client's clientIndices after every step - against the same actions.",
+         "every call, registered clients, a snapshot of every client's clientIndices after every step - against the same actions. TLAPS (AttesterProofs) proves the inductive invariant (cache = log of accepted pairs, functional binding) and NoSpuriousReject / RepeatAndFreshAccepted / UnverifiedRefused for arbitrary constants.",
     note="Constants: 2 clients, 3 origins (two sharing an index key), 2-3 anon IDs on the specification; 8 clients, 6 origins, 5 "
          "anon IDs in recorded histories. Cheap history steps compute the issuer-blinded key with the library's own blinding "
          "function (checked against the independent reference each time); a sample of histories runs full issuance.",
@@ -81,7 +81,7 @@ CLAIMED["C06"] = dict(
          "graph. All TLC behaviours up to depth 3 and sweeps over real requests - every listed corruption, each bit (quick: one "
          "seeded bit per byte) of every field, foreign-key/foreign-content/short/long/zero/swapped signatures, wrong blind, wrong "
          "client, malformed client keys, alone and with accepted state present - are executed with a recording cache and "
-         "validated by TLC (verdict, Put count, registered set, state snapshots).",
+         "validated by TLC (verdict, Put count, registered set, state snapshots). TLAPS (AttesterProofs, thorough tier) proves RegisteredOnlyVerified as part of an inductive invariant for arbitrary constants.",
     note="The request class (what is true of the request) is known to the harness by construction; 'rejected' for corrupted "
          "requests can fail spuriously only with probability <= 2^-100.",
     technique="TLA+ spec + TLC model checking + TLC-generated behaviours and corruption sweeps replayed on the real attester + TLC trace validation",
@@ -92,7 +92,7 @@ CLAIMED["C08"] = dict(
          "full issuance (fresh blind, nonce, challenge per request) and random histories are validated by TLC: logged IDs are "
          "interned and must be equal exactly when the specification's terms are equal; each ID must equal the harness's "
          "independent HKDF-SHA-384 / RFC 9380 XMD / crypto/elliptic reference and the issuer's second return value the reference "
-         "issuer-blinded key.",
+         "issuer-blinded key. TLAPS (AttesterProofs, thorough tier) proves IndexStable and IndexInjective for arbitrary constants.",
     note="Hashes, HKDF and group operations are uninterpreted in TLA+; their concrete values are checked only against the "
          "harness's independent reference on the sampled clients, index keys and blinds.",
     technique="TLA+ symbolic blinding algebra + TLC invariants + TLC trace validation of interned IDs with an independent HKDF/XMD reference",
@@ -106,7 +106,7 @@ CLAIMED["C01"] = dict(
          "constraint). Complete honest runs of all four types - request marshalled, unmarshalled by the issuer, evaluated, response "
          "finalized - over challenge lengths, batch sizes 1..513 and origin lengths are recorded and validated by TLC: completion, the "
          "exact token layout at byte level (Messages.tla, digests supplied by the harness) and validity under the issuer key "
-         "(independent oracle: circl FullEvaluate / crypto/rsa.VerifyPSS over an input concatenated by the harness).",
+         "(independent oracle: circl FullEvaluate / crypto/rsa.VerifyPSS over an input concatenated by the harness). TLAPS (IssuanceProofs, thorough tier) proves HonestIsAccepted for arbitrary constants and batch sizes.",
     note="Keys, nonces, challenges and blinds are sampled; RSA keys are 2048-bit. SHA-256 digests are supplied next to the data.",
     technique="TLA+ protocol spec + TLC safety and liveness + TLC trace validation of recorded honest runs over the wire with byte-level token layout",
     ref="5/C01")
@@ -115,7 +115,7 @@ CLAIMED["C02"] = dict(
          "with one mutation of the real response bytes (each bit of every response field, foreign key, foreign request, drop / "
          "duplicate / swap / every permutation of batch elements, an element of another batch, truncations, extensions, random "
          "strings) are validated by TLC, which rebuilds the symbolic run, applies the logged mutation and requires the library's "
-         "verdict to equal FinalizeCheck; any token output must pass the independent oracle and carry the request's fields.",
+         "verdict to equal FinalizeCheck; any token output must pass the independent oracle and carry the request's fields. TLAPS (IssuanceProofs) proves for arbitrary constants, batch sizes and ANY message on the network: accepted => the response content is the honest answer to this request under the pinned key, and outputs are the request's own tokens.",
     note="Coverage of 'all responses' is the closure of the mutation alphabet plus random strings. A corrupted response is accepted "
          "by a correct client with probability <= 2^-100.",
     technique="TLA+ protocol spec with attacker + TLC model checking + TLC trace validation of recorded mutated runs against the spec's finalize checks",
@@ -132,7 +132,7 @@ CLAIMED["C07"] = dict(
 CLAIMED["C10"] = dict(
     text=_ISS + "TLC checks VerifyExact. Recorded Verify calls of type-1 and type-5 issuers on honest tokens and altered ones (each "
          "bit of each field, type field, other key, other type, field-length shifts, short/long/empty fields, authenticator "
-         "prefixes) are validated by TLC: verdict = independent FullEvaluate comparison, honest accepted, listed alterations rejected.",
+         "prefixes) are validated by TLC: verdict = independent FullEvaluate comparison, honest accepted, listed alterations rejected. TLAPS (IssuanceProofs, thorough tier) proves VerifyExact from the inductive invariant for arbitrary constants.",
     note="The reference verdict uses circl's FullEvaluate over bytes concatenated by the harness.",
     technique="TLA+ protocol spec + TLC invariant + TLC trace validation of recorded Verify calls on altered tokens",
     ref="5/C10")
@@ -140,7 +140,7 @@ CLAIMED["C11"] = dict(
     text=_ISS + "TLC checks TokenIgnoresBlind. A matrix of deterministic runs (types 1, 2, 5; keys; nonce/challenge pairs; salts; a "
          "blind pool with edge encodings) is recorded with interned request/token bytes and validated by a stateful trace "
          "specification: equal arguments => equal request, different blind => different request, equal (key, nonce, challenge, "
-         "salt) => equal token for all blind pairs; the three Rust interop vectors are reproduced byte for byte.",
+         "salt) => equal token for all blind pairs; the three Rust interop vectors are reproduced byte for byte. TLAPS (IssuanceProofs, thorough tier) proves TokenIgnoresBlind from the inductive invariant for arbitrary constants.",
     note="Blinds are a finite pool; the Rust vectors are those shipped in the repository.",
     technique="TLA+ protocol spec + TLC invariant + stateful TLC trace validation of a deterministic-issuance matrix and interop vectors",
     ref="5/C11")
@@ -163,7 +163,7 @@ CLAIMED["C12"] = dict(
          "signing key x blind x context: blind, sign, verify under every relevant key, unblind back, two blinds in both orders) "
          "and seeded random operation sequences run on real keys with results interned by their bytes; TLC accepts the trace only "
          "if logged equalities are exactly the normal-form equalities, the fork's and crypto/ecdsa's verdicts equal the "
-         "specification's, and every blinded key equals the harness's independent RFC 9380 XMD hash-to-field x crypto/elliptic value.",
+         "specification's, and every blinded key equals the harness's independent RFC 9380 XMD hash-to-field x crypto/elliptic value. TLAPS (KeyBlindProofs) proves the blinding laws for every key term (unbounded depth).",
     note="Group operations, hashes and ECDSA are uninterpreted in TLA+; numerical correctness enters through the independent "
          "reference and crypto/ecdsa on the sampled keys, blinds (incl. leading-zero, >= N, one), contexts and digests.",
     technique="TLA+ symbolic ADT + TLC invariants + TLC trace validation of interned results of recorded operation sequences with an independent XMD reference",
@@ -199,7 +199,7 @@ CLAIMED["C15"] = dict(
          "blind and context matter), crypto/ed25519.Verify and the fork's Verify = the specification's verdict (blind signatures "
          "verify under the blinded key with an unmodified verifier and not under the original key), one signature per (key, "
          "blind, context, message), and every blinded key = SHA-512(blind || 00 || ctx)[0:32] mod L times the key by a math/big "
-         "Edwards-curve reference.",
+         "Edwards-curve reference. TLAPS (KeyBlindProofs) proves the blinding laws for every key term (unbounded depth).",
     note="Curve and scalar arithmetic are uninterpreted in TLA+; they enter through the math/big reference and crypto/ed25519 on the sampled keys, blinds, contexts and messages.",
     technique="TLA+ symbolic ADT + TLC invariants + TLC trace validation of interned results with a math/big Edwards reference and the stdlib verifier",
     ref="5/C15")
